@@ -63,7 +63,9 @@ LeafDef == [
   ft    |-> Leaf(Fin(R(11), L1), TRUE),           \* Function("f", [t], length) applied to t
   dft   |-> Leaf(Fin(R(13), Speed), TRUE),        \* Derivative(f(t), t)          : length / time
   d2ft  |-> Leaf(Fin(R(-2), Accel), TRUE),        \* Derivative(f(t), (t, 2))     : length / time^2
-  dgxt  |-> Leaf(Fin(R(3), LMT(RZero, ROne, R(-1), RZero)), TRUE)  \* Derivative(g(x, t), x, t), g: mass*length -> M/T
+  dgxt  |-> Leaf(Fin(R(3), LMT(RZero, ROne, R(-1), RZero)), TRUE), \* Derivative(g(x, t), x, t), g: mass*length -> M/T
+  dLq   |-> Leaf(Fin(R(19), DDiv(Energy, L1)), TRUE)               \* Derivative(L(f(t), t), f(t)): energy / length
+                                                                   \*   (the variable is an APPLIED function)
 ]
 
 \* dimension of a derivative from the declared dimensions (what the property states)
@@ -72,8 +74,11 @@ DerivLemma ==
   /\ LeafDef.dft.val.d  = DerivDim(L1, T1)
   /\ LeafDef.d2ft.val.d = DerivDim(L1, DPow(T1, R(2)))
   /\ LeafDef.dgxt.val.d = DerivDim(DMul(M1, L1), DMul(L1, T1))
+  /\ LeafDef.dLq.val.d  = DerivDim(Energy, L1)
 
-AllOps == {"mul2", "mul3", "add2", "add3", "pow", "abs", "min2", "max2", "exp"}
+AllOps == {"mul2", "mul3", "add2", "add3", "pow", "abs", "min2", "max2", "exp", "gapp"}
+\* "gapp": G(x) for a function G declared with the dimension of an energy, applied to ANY sub-expression:
+\* its dimension is the declared one whatever the argument is, but an error inside the argument is an error
 Arity(o) == CASE o \in {"mul2", "add2", "pow", "min2", "max2"} -> 2
               [] o \in {"mul3", "add3"} -> 3
               [] OTHER -> 1
@@ -100,6 +105,7 @@ Sem(o, xs, infer) ==
     [] o = "min2" -> MinMax(TRUE, xs[1], xs[2])
     [] o = "max2" -> MinMax(FALSE, xs[1], xs[2])
     [] o = "exp"  -> IF infer THEN InferFunc(xs[1]) ELSE FuncSem(xs[1])
+    [] o = "gapp" -> IF xs[1].c = "err" THEN Err ELSE Fin(R(17), Energy)
 
 Defined(o, xs) ==
   CASE o = "mul2" -> Mul2Defined(xs[1], xs[2])
@@ -111,6 +117,7 @@ Defined(o, xs) ==
     [] o \in {"min2", "max2"} -> MinMaxDefined(xs[1], xs[2])
     [] o = "exp"  -> ~HasAngle(xs[1]) /\ xs[1].c # "irr"
                      /\ (xs[1].c = "fin" => AbsI(xs[1].v[1]) <= 20 * xs[1].v[2])
+    [] o = "gapp" -> TRUE
 
 (* What the value of a sub-expression containing symbols is only known under *)
 (* the assignment.  A result that is zero/infinite/NaN under the assignment  *)
@@ -171,7 +178,7 @@ Apply(o) ==
      /\ stack'  = Append(Pop(stack, n), Sem(o, xs, TRUE))
      /\ qstack' = Append(Pop(qstack, n), Sem(o, qs, FALSE))
      /\ flags'  = Append(Pop(flags, n), ResultFlags(o, xs, fl, Sem(o, xs, TRUE)))
-     /\ fdim'   = (fdim \/ (o = "exp" /\ qs[1].c \in {"fin", "irr"} /\ ~Dimless(qs[1].d)))
+     /\ fdim'   = (fdim \/ o = "gapp" \/ (o = "exp" /\ qs[1].c \in {"fin", "irr"} /\ ~Dimless(qs[1].d)))
   /\ prog' = Append(prog, o)
 
 Next == (\E l \in LeafNames : Push(l)) \/ (\E o \in OpNames : Apply(o))
